@@ -344,6 +344,10 @@ void throwCase(Ctx &c, Rng &g) {
         c.count("scalar-fault:target-compared");
       } else {
         c.count("scalar-fault:basic-guarantee-only");
+        // *= and /= may legitimately leave a partially scaled (valid) target
+        // behind; start the next attempt from the original value again so
+        // that the completed call can be compared with the double run
+        t = lift(gs, da);
       }
       continue;
     }
